@@ -126,6 +126,9 @@ func NewExec(P *Program, C *Contracts, fn *ssa.Function) *Exec {
 		counts: map[string]int{}, callOrd: map[string]int{}}
 	e.topName = funcKey(fn)
 	e.fc = C.Funcs[e.topName]
+	if e.fc == nil && fn.Origin() != nil {
+		e.fc = C.Funcs[funcKey(fn.Origin())]
+	}
 	if e.fc != nil {
 		e.defaultProps = e.fc.Props
 	}
@@ -674,6 +677,20 @@ func (e *Exec) doReturn(r *ssa.Return, st *State) {
 	e.rets = append(e.rets, retPoint{st: st, vals: vals, nhyps: len(e.ctx.hyps)})
 	if e.fc == nil {
 		return
+	}
+	// ghost updates take effect at the return
+	for _, gu := range e.fc.Ghosts {
+		gu := gu
+		before := st.clone()
+		genv := e.newEnv(before, e.entry)
+		genv.results = vals
+		genv.resultNames = resultNames(e.fn)
+		m := e.ctx.family(st, "ghost:"+gu.Map, I64)
+		st.mems["ghost:"+gu.Map] = m.Lambda(func(addr *Term) *Term {
+			ev := *genv
+			ev.vars = map[string]Value{gu.Var: Scalar{addr}}
+			return e.toI64(ev.eval(gu.Expr))
+		})
 	}
 	env := e.newEnv(st, e.entry)
 	env.results = vals
